@@ -270,6 +270,9 @@ func (rm *Manager) findRelatedParents(relatedSlice ...*unstructured.Unstructured
 			}
 
 			for _, relatedRule := range customizeHookResponse.RelatedResourceRules {
+				if relatedRule == nil {
+					continue
+				}
 				for _, related := range relatedSlice {
 					parentGroup, _ := schema.ParseGroupVersion(parent.GetAPIVersion())
 					parentResource := rm.parentKinds.Get(schema.GroupKind{Group: parentGroup.Group, Kind: parent.GetKind()})
@@ -392,6 +395,9 @@ func (rm *Manager) GetRelatedObjects(parent *unstructured.Unstructured) (commonv
 	}
 
 	for _, relatedRule := range customizeHookResponse.RelatedResourceRules {
+		if relatedRule == nil {
+			return nil, fmt.Errorf("customize hook returned a null related resource rule")
+		}
 		relatedClient, informer, err := rm.getRelatedClient(relatedRule.APIVersion, relatedRule.Resource)
 		if err != nil {
 			return nil, err
